@@ -191,7 +191,7 @@ def row_units(draw, units=True):
 
 @st.composite
 def problems(draw, max_surveys=3, max_epochs=8, max_poly=3, n_rows=(4, 8), units=True, data_kinds=("list", "dict"),
-             t_ref=True, min_surveys=1):
+             t_ref=True, min_surveys=1, allow_f4=False):
     d = draw(surveys(max_surveys=max_surveys, max_epochs=max_epochs, units=units, min_surveys=min_surveys))
     sv = d["surveys"]
     ns = len(sv)
@@ -217,6 +217,11 @@ def problems(draw, max_surveys=3, max_epochs=8, max_poly=3, n_rows=(4, 8), units
     nr = draw(st.integers(*n_rows))
     spec["rows"] = draw(rows(nr, spec["prior"], sv[0]["unit"], d["scale_kms"], float(np.median(errs))))
     spec["row_units"] = draw(row_units(units))
+    if allow_f4 and draw(st.integers(0, 7)) == 0:
+        # single-precision library, stored in the sampler's internal units (so that no path does unit arithmetic in
+        # float32: only the documented up-cast to float64 is exercised)
+        spec["row_dtype"] = "f4"
+        spec["row_units"] = {"P": "d", "omega": "rad", "M0": "rad", "s": None}
     return spec
 
 
@@ -339,6 +344,10 @@ def build_samples(spec, rows=None, extra=None):
     smp["M0"] = conv([r["M0"] for r in rows], "rad", ru.get("M0", "rad")) * unit(ru.get("M0", "rad"))
     su = ru.get("s") or du
     smp["s"] = conv([r["s"] for r in rows], du, su) * unit(su)
+    if spec.get("row_dtype") == "f4":
+        # prior.sample(dtype=np.float32) produces single-precision libraries; the sampler must up-cast them
+        for nm in ("P", "e", "omega", "M0", "s"):
+            smp[nm] = smp[nm].astype(np.float32)
     if extra:
         for k, val in extra.items():
             smp[k] = val
